@@ -50,14 +50,22 @@ let run_case toks =
           args (n-1) r' (List.map q_of_string v :: acc)
         | [] -> failwith "short case" in
     let a = args (int_of_string nargs) rest [] in
-    let res =
-      try
-        match run_q orc (flt = "1") (parse_group grp) (Names.op_of_string op) mask
-                (B.big_int_of_string iarg) a with
-        | Ok outs ->
+    let show outs =
           "ok " ^ string_of_int (List.length outs) ^
           String.concat "" (List.map (fun v -> " " ^ string_of_int (List.length v) ^
-            String.concat "" (List.map (fun x -> " " ^ string_of_q x) v)) outs)
+            String.concat "" (List.map (fun x -> " " ^ string_of_q x) v)) outs) in
+    (* dual mode (flt = 2): every argument vector is (primal parts ++ dual parts); every output vector is printed as two *)
+    let halves v = let n = List.length v / 2 in
+      let rec go i l p = if i = 0 then List.rev p, l else match l with x :: r -> go (i-1) r (x :: p) | [] -> List.rev p, [] in
+      let p, d = go n v [] in List.combine p d in
+    let res =
+      try
+        match (if flt = "2" then
+                 (match run_dq orc (parse_group grp) (Names.op_of_string op) mask (B.big_int_of_string iarg) (List.map halves a) with
+                  | Ok outs -> Ok (List.concat (List.map (fun v -> [List.map fst v; List.map snd v]) outs))
+                  | InvalidArgument -> InvalidArgument | RuntimeError -> RuntimeError | LogicError -> LogicError | OutOfBounds i -> OutOfBounds i)
+               else run_q orc (flt = "1") (parse_group grp) (Names.op_of_string op) mask (B.big_int_of_string iarg) a) with
+        | Ok outs -> show outs
         | InvalidArgument -> "exc invalid_argument"
         | RuntimeError -> "exc runtime_error"
         | LogicError -> "exc logic_error"
